@@ -345,6 +345,16 @@ func main() {
 			final := d == len(alphabets)
 			tLevel := time.Now()
 			var next []node
+			if !final {
+				// sized once: growing slices and maps touches fresh pages repeatedly
+				est := len(cur) * len(alpha) / 3
+				next = make([]node, 0, est)
+				bigger := make(map[digest]struct{}, len(seen)+est)
+				for k := range seen {
+					bigger[k] = struct{}{}
+				}
+				seen = bigger
+			}
 			win := window
 			if final {
 				win = window * 64 // nothing is stored at the last level
